@@ -66,7 +66,9 @@ def build(e):
     elif k == 'interval':
         p = IntervalProducer(Instant.from_timestamp_nanos(e[1]) if e[1] is not None else None, secs(e[2]))
     elif k == 'group':
-        p = GroupProducer([build(x) for x in e[1]])
+        # through the public builder (it copies the members)
+        from eascheduler.builder.triggers import TriggerBuilder, TriggerObject
+        p = TriggerBuilder.group(*[TriggerObject(build(x)) for x in e[1]])._producer
     elif k == 'offset':
         p = OffsetProducerOperation(build(e[1]), secs(e[2]))
     elif k == 'earliest':
@@ -110,7 +112,7 @@ def _alarm(*_a):
 def query(p, dt_ns: int, budget_s: int = 1):
     """-> ['ok', ns] | ['raise', enum] | ['budget']"""
     signal.signal(signal.SIGALRM, _alarm)
-    signal.alarm(budget_s)
+    signal.setitimer(signal.ITIMER_REAL, budget_s)
     try:
         r = p.get_next(Instant.from_timestamp_nanos(dt_ns))
         return ['ok', r.timestamp_nanos()]
@@ -129,7 +131,7 @@ def query(p, dt_ns: int, budget_s: int = 1):
     except Exception:  # noqa: BLE001
         return ['raise', 'EOther']
     finally:
-        signal.alarm(0)
+        signal.setitimer(signal.ITIMER_REAL, 0)
 
 
 def run_case(case: dict) -> dict:
